@@ -109,7 +109,21 @@ class PGen:
                 kb = self.newk()
                 self.k += 5
                 a = self.pick()
-                self.emit('%s = bvalue(%s)' % (label, t[0]))
+                # bvalue of a single task, or of a container of tasks (every member must be complete, otherwise the import pauses)
+                others = [v for v in self.vars if v[1] is not None and v[0] != t[0]]
+                form = r.choice(['single', 'single', 'list', 'tuple', 'dict']) if others else 'single'
+                extra = []
+                if form == 'single':
+                    self.emit('%s = bvalue(%s)' % (label, t[0]))
+                else:
+                    x = r.choice(others)
+                    extra = [(x[1], lib.canon(x[2]))]
+                    if form == 'list':
+                        self.emit('%s = bvalue([%s, %s])[0]' % (label, t[0], x[0]))
+                    elif form == 'tuple':
+                        self.emit('%s = bvalue((%s, %s))[1]' % (label, x[0], t[0]))
+                    else:
+                        self.emit("%s = bvalue({'a': %s, 'b': %s})['a']" % (label, t[0], x[0]))
                 self.emit('note(%r, %s)' % (label, label))
                 self.emit('mark(%r)' % label)
                 self.marks[label] = list(self.keys)
@@ -117,7 +131,7 @@ class PGen:
                 self.emit('%s = [inc(%d + j, %s) for j in range(%s)]' % (wname, kb, a[0], label))
                 adeps = [a[1]] if a[1] is not None else a[3]
                 branch = [('task', kb + j, sorted(set(adeps))) for j in range(n)]
-                self.items.append(('bvalue', t[1], lib.canon(n), branch))
+                self.items.append(('bvalue', t[1], lib.canon(n), branch, extra))
                 for j in range(n):
                     self.keys.append(kb + j)
                 self.vars.append((wname, None, self.pns[wname], [kb + j for j in range(n)]))
@@ -145,7 +159,11 @@ class PGen:
             if it[0] == 'barrier':
                 return {'barrier': build(rest)}
             if it[0] == 'bvalue':
-                return {'bvalue': it[1], 'cases': {it[2]: build(list(it[3]) + list(rest))}}
+                node = {'bvalue': it[1], 'cases': {it[2]: build(list(it[3]) + list(rest))}}
+                # the other members of the container: each must have a result too (modelled as a bvalue whose value is not used)
+                for xk, xv in (it[4] if len(it) > 4 else []):
+                    node = {'bvalue': xk, 'cases': {xv: node}}
+                return node
             if it[0] == 'compound':
                 return {'compound': [it[1], [[ik, d] for ik, d in it[2]]], 'rest': build(rest)}
         return build(self.items)
